@@ -517,6 +517,9 @@ fn check_texts(v: &mut Verdict, ta: &str, tb: &str) -> PairFacts {
                 );
             } else {
                 v.class(if ta.contains('@') || tb.contains('@') { "false-positive-with-attrs" } else { "false-positive-without-attrs" });
+                if std::env::var_os("VERIF_C15_TRACE").is_some() {
+                    eprintln!("false-positive\t{}\t{}\t{}", unequal_cell(ta, tb, pa, pb), ta, tb);
+                }
                 v.fail(
                     format!(
                         "cmp-false-positive:{}",
